@@ -290,8 +290,12 @@ impl AggregateUDFImpl for BitwiseOperation {
         }
     }
 
-    fn groups_accumulator_supported(&self, _args: AccumulatorArgs) -> bool {
-        true
+    fn groups_accumulator_supported(&self, args: AccumulatorArgs) -> bool {
+        // The groups accumulator folds every value into the running result, which is
+        // only correct for DISTINCT when the operation is idempotent (AND / OR).
+        // `bit_xor(DISTINCT ..)` needs the set of distinct values (see `state_fields`
+        // and `DistinctBitXorAccumulator`), so it must use the row accumulator.
+        !(args.is_distinct && self.operation == BitwiseOperationType::Xor)
     }
 
     fn create_groups_accumulator(
